@@ -22,7 +22,7 @@ type c19Caller struct {
 type c19Case struct {
 	Stack   StackCfg    `json:"stack"`
 	Callers []c19Caller `json:"callers"`
-	Yields  []uint8     `json:"yields,omitempty"`
+	Yields  yieldList   `json:"yields,omitempty"`
 	// Overload: the backlog timeout is short, so some callers legitimately time out; what must still
 	// hold: held <= limit, a refused caller returns exactly at its timeout (or at once at a full
 	// backlog), and afterwards the pool serves its full limit again (no capacity lost to a time-out
@@ -64,7 +64,7 @@ func genC19(coop bool) func(t *rapid.T) c19Case {
 			c.Stack.TimeoutMs = rapid.SampledFrom([]int{1, 2, 5, 5, 7, 10}).Draw(t, "short-timeout")
 		}
 		if coop {
-			c.Yields = rapid.SliceOfN(rapid.SampledFrom([]uint8{0, 0, 1, 1, 2, 3}), 0, 60).Draw(t, "yields")
+			c.Yields = yieldList(rapid.SliceOfN(rapid.SampledFrom([]uint8{0, 0, 1, 1, 2, 3}), 0, 60).Draw(t, "yields"))
 		}
 		return c
 	}
